@@ -42,8 +42,8 @@ ASSUMPTIONS = [
 ]
 SHARD_TIMEOUT = {"quick": 900, "thorough": 5400}
 BOUNDS = {
-    "quick": dict(n=400, depth=2, max_states=10, max_inst=12),
-    "thorough": dict(n=6000, depth=3, max_states=40, max_inst=24),
+    "quick": dict(n=110, shards=5, depth=2, max_states=8, max_inst=10, file_dirs=("counters", "safe_road", "visit_precedence")),
+    "thorough": dict(n=6000, shards=16, depth=3, max_states=40, max_inst=24),
 }
 PDDL_DIR = os.path.join(_env.REPO, "unified_planning", "test", "pddl")
 
@@ -68,7 +68,7 @@ WRITER_NEVER = {
 
 def plan(tier, seed):
     b = BOUNDS[tier]
-    return simple_plan(PROPERTY, tier, seed, b["n"], b["n"], shards_quick=16)
+    return simple_plan(PROPERTY, tier, seed, b["n"], b["n"], shards_quick=b["shards"], shards_thorough=BOUNDS["thorough"]["shards"])
 
 
 def run_shard(spec, res):
@@ -119,6 +119,10 @@ def gen_text(rng):
     clean = rng.random() < 0.85
     if clean:
         rec = iofrag.avoid_parser_traps(rec)
+    if rng.random() < 0.85:
+        # a goal with or / imply / quantifiers is never accepted by the third-party parser (outside the common fragment)
+        rec = iofrag.simple_goals(rec)
+    rec = iofrag.complete_action_costs(rec)
     d, p, names, forms = pddltext.print_pddl(rng, rec, untyped, allow_empty_precondition=not clean)
     return rec, d, p, forms
 
@@ -140,7 +144,9 @@ def compare(dom, prob, forms, wbase, b, res):
         res.violation(mech, summary, {**wbase, "domain": dom, "problem": prob, "forms": sorted(forms), **w})
 
     tags = io_rt.pddl_text_tags(dom, prob)
-    sfx = ("[" + io_rt.primary_tag(tags) + "]") if tags else ""
+    # one mechanism string per root cause: constructs the third-party `pddl` package mis-parses (its AST already lacks the
+    # repeated operand / has Or() for the empty precondition) key the string, however the disagreement shows
+    third_party = ("third-party-misparse[" + io_rt.primary_tag(tags) + "]") if tags else None
     outs = {}
     for which in ("up", "ai"):
         res.mon()
@@ -171,7 +177,14 @@ def compare(dom, prob, forms, wbase, b, res):
     except bisim.Mismatch as m:
         res.mon()
         res.case()
-        viol(f"{m.mechanism}{'' if m.mechanism.startswith('initial-state') else sfx}", f"UP reader vs AI reader: {m.summary}", **m.details)
+        diff = m.details.get("diff") or {}
+        if any(v[2] == "num" and io_rt.inexact_binary(v[1]) for v in diff.values()):
+            mech = "inexact-decimal-constant"  # the AI reader turns the decimal literal 0.4 into Fraction(float)
+        elif third_party and not m.mechanism.startswith("initial-state"):
+            mech = third_party
+        else:
+            mech = m.mechanism
+        viol(mech, f"UP reader vs AI reader: {m.summary}", text_tags=tags, **m.details)
         return
     except Unsupported:
         res.count("skipped_unsupported_by_oracle")
@@ -191,7 +204,7 @@ def compare(dom, prob, forms, wbase, b, res):
     except bisim.Mismatch as m:
         res.mon()
         res.case()
-        viol(f"{m.mechanism}{sfx}", f"UP reader vs AI reader: {m.summary}", **m.details)
+        viol(third_party or m.mechanism, f"UP reader vs AI reader: {m.summary}", text_tags=tags, **m.details)
         return
     except Unsupported:
         res.count("skipped_unsupported_by_oracle")
@@ -228,6 +241,8 @@ def run_files(tier, res, only=None):
         rel = os.path.relpath(dom, PDDL_DIR) + "+" + os.path.relpath(pr, PDDL_DIR)
         if only and rel != only:
             continue
+        if not only and b.get("file_dirs") and rel.split(os.sep)[0] not in b["file_dirs"]:
+            continue  # quick tier: the small pairs only (the UP reader needs 1-3 CPU-seconds for each of the larger ones)
         with open(dom, encoding="utf-8-sig") as fh:
             dt = fh.read()
         with open(pr, encoding="utf-8-sig") as fh:
@@ -250,31 +265,32 @@ def run_files(tier, res, only=None):
 
 
 REQUIRED = {
-    "judged-form:constants-section": 15,
-    "judged-form:multi-group-object-list": 5,
-    "judged-form:nested-and": 8,
-    "judged-form:mirrored-comparison": 15,
-    "judged-form:object-equality": 10,
-    "judged-form:when-and": 5,
-    "judged-form:forall-when": 3,
-    "judged-form:action-costs": 8,
-    "judged-form:imply": 3,
-    "judged-form:unary-minus": 10,
-    "feature:conditional": 20,
+    "judged-form:constants-section": 10,
+    "judged-form:multi-group-object-list": 1,
+    "judged-form:nested-and": 4,
+    "judged-form:mirrored-comparison": 3,
+    "judged-form:object-equality": 6,
+    "judged-form:when-and": 4,
+    "judged-form:forall-when": 2,
+    "judged-form:action-costs": 3,
+    "judged-form:unary-minus": 6,
+    "judged-form:unary-and-or": 1,
+    "feature:conditional": 30,
     "feature:forall": 10,
     "metrics_compared": 10,
     "files_accepted_by_both": 2,
 }
+REQUIRED_THOROUGH = {k: v * 20 for k, v in REQUIRED.items() if not k.startswith("files")}
+REQUIRED_THOROUGH.update({"judged-form:imply": 20, "judged-form:untyped-parameter": 0, "files_accepted_by_both": 2})
 
 
 def thresholds(m):
     c = m["counters"]
     thorough = bool(c.get("tier:thorough"))
     out = []
-    for k, v in REQUIRED.items():
-        need = v * (5 if thorough and not k.startswith("files") else 1)
+    for k, need in (REQUIRED_THOROUGH if thorough else REQUIRED).items():
         if c.get(k, 0) < need:
             out.append(f"fewer than {need} observations of class {k} ({c.get(k, 0)})")
-    if len(m["nontrivial"]) < (40 if not thorough else 400):
+    if len(m["nontrivial"]) < (12 if not thorough else 400):
         out.append(f"too few distinct non-trivial texts ({len(m['nontrivial'])})")
     return out
